@@ -550,7 +550,9 @@ def o8(h, st):
           structures=lambda tier: [{"n": n, "n_meas": m, "save": sv, "desired": d, "init": it} for n, m in ((9, 2), (8, 3), (10, 1), (7, 4), (11, 2), (3, 1)) for sv in (True, False)
                                    for d in (False, True) for it in (False, True) if (sv or not d) and (not it or n in (3, 7, 9))][:: 1 if tier != "quick" else 1]
                                   # a noise model (all rates zero, so that every outcome stays certain) sends the desired-outcome request through the density-matrix route
-                                  + [{"n": n, "n_meas": m, "save": True, "desired": True, "init": it, "noisy": True} for n, m in ((3, 1), (4, 2), (5, 3)) for it in (False, True)],
+                                  + [{"n": n, "n_meas": m, "save": True, "desired": True, "init": it, "noisy": True} for n, m in ((3, 1), (4, 2), (5, 3)) for it in (False, True)]
+                                  # one shot with the statevector returned next to the saved mid-circuit record (the only shot number for which that combination is defined)
+                                  + [{"n": n, "n_meas": m, "save": True, "desired": d, "init": it, "one_shot_sv": True} for n, m in ((3, 1), (5, 2)) for d in (False, True) for it in (False, True)],
           native_samples=lambda st, rnd, tier: [{"seed": rnd.randint(0, 10 ** 6)}],
           targets=[(BK, "Backend.simulate"), (TGC, "CirqSimulator.simulate_circuit")])
 def o9(h, st):
@@ -605,7 +607,14 @@ def o9(h, st):
     else:
         sim = get_backend("cirq", n_shots=shots)
     desired = mid if st["desired"] else None
-    freqs, _ = h.call(BK, "Backend.simulate", sim, c, False, init_sv, desired, st["save"])
+    if st.get("one_shot_sv"):
+        sim = get_backend("cirq", n_shots=1)
+        freqs, sv = h.call(BK, "Backend.simulate", sim, c, True, init_sv, desired, True)
+        exp_sv = np.zeros(2 ** n, dtype=complex)
+        exp_sv[int(final, 2)] = 1.0
+        h.check("one shot: the returned statevector is the certain final basis state (up to a phase)", sv is not None and abs(abs(np.vdot(exp_sv, np.asarray(sv).reshape(-1))) - 1) < 1e-9)
+    else:
+        freqs, _ = h.call(BK, "Backend.simulate", sim, c, False, init_sv, desired, st["save"])
     freqs = {k: v for k, v in freqs.items() if abs(v) > 1e-12}
     h.check("the certain final bitstring (qubit 0 first) with frequency one", set(freqs) == {final} and abs(freqs[final] - 1) < 1e-9, detail=f"{freqs} vs {final}")
     if st["save"]:
